@@ -1117,14 +1117,14 @@ class Interp:
                     if mv is not None:
                         return mv
                     raise Unsupported(f'module {imp[1]} has no model')
+                sub = mod.resolve_from((imp[1] + '.' if imp[1] else '') + imp[2], imp[3])
+                if sub and not sub.endswith('__init__.py') or (sub and sub != mod.relpath and imp[1] == ''):
+                    return ModuleVal(sub, _RepoModuleAttrs(self, source.get_module(sub)))      # `from . import submodule`
                 rel = mod.resolve_from(imp[1], imp[3])
                 if rel:
                     m2 = source.get_module(rel)
-                    if imp[2] in m2.functions or imp[2] in m2.classes or imp[2] in m2.assigns or imp[2] in m2.imports:
+                    if m2 is not mod and (imp[2] in m2.functions or imp[2] in m2.classes or imp[2] in m2.assigns or imp[2] in m2.imports):
                         return self.lookup_global(m2, imp[2])
-                    sub = mod.resolve_from((imp[1] + '.' if imp[1] else '') + imp[2], imp[3])
-                    if sub:
-                        return ModuleVal(sub, _RepoModuleAttrs(self, source.get_module(sub)))
                 mv = builtins_model.from_import(imp[1], imp[2])
                 if mv is not None:
                     return mv
